@@ -57,6 +57,11 @@ def Own (k : Nat) : Ctl.Event τ → Bool
   | .internalError _ => false
   | .unscheduled _ _ => false
 
+/-- a worker never sends a death notice as an ordinary event -/
+def plainMsg : WMsg τ → Bool
+  | .ev e => !isNotice e
+  | _ => true
+
 def isEnd : WMsg τ → Bool
   | .endMarker => true
   | _ => false
@@ -125,6 +130,7 @@ structure WkInv (c : Ctl.State (Load.State τ) τ) (k : Nat) (w : Wk τ) : Prop 
   inboxK : ∀ c ∈ w.inbox, loadCmd c = true
   ownP : ∀ ev ∈ w.posted, Own k ev = true
   ownO : ∀ ev ∈ w.outbox.filterMap (evOf k), Own k ev = true
+  evPlain : ∀ m ∈ w.outbox, plainMsg m = true
   notBroken : w.alive = true → (c.env.flags.get k).broken = false
   -- the controller learns of every death
   notice1 : k ∈ c.active → (c.env.flags.get k).down = false →
@@ -132,6 +138,7 @@ structure WkInv (c : Ctl.State (Load.State τ) τ) (k : Nat) (w : Wk τ) : Prop 
   notice2 : k ∈ c.active → (c.env.flags.get k).down = true → w.posted.any isNotice = true
   noticeDown : w.posted.any isNotice = true → (c.env.flags.get k).down = true
   inactive : k ∉ c.active → w.posted = []
+  inactiveDown : k ∉ c.active → (c.env.flags.get k).down = true
   -- every shutdown signal reaches the queue of a live worker
   shut : w.alive = true → (c.env.flags.get k).sent = true → shutSeen w = true
   -- registration and collection
@@ -157,12 +164,14 @@ instance instWkInvDec (c : Ctl.State (Load.State τ) τ) (k : Nat) (w : Wk τ) :
      (∀ c ∈ w.inbox, loadCmd c = true) ∧
      (∀ ev ∈ w.posted, Own k ev = true) ∧
      (∀ ev ∈ w.outbox.filterMap (evOf k), Own k ev = true) ∧
+     (∀ m ∈ w.outbox, plainMsg m = true) ∧
      (w.alive = true → (c.env.flags.get k).broken = false) ∧
      (k ∈ c.active → (c.env.flags.get k).down = false →
         (w.alive = true ∧ w.phase ≠ .done) ∨ w.outbox.any isEnd = true) ∧
      (k ∈ c.active → (c.env.flags.get k).down = true → w.posted.any isNotice = true) ∧
      (w.posted.any isNotice = true → (c.env.flags.get k).down = true) ∧
      (k ∉ c.active → w.posted.isEmpty = true) ∧
+     (k ∉ c.active → (c.env.flags.get k).down = true) ∧
      (w.alive = true → (c.env.flags.get k).sent = true → shutSeen w = true) ∧
      (k ∈ c.active → c.env.flags.shuttingDown k = false → w.phase ≠ .boot →
         (flight k w).any isReady = false → k ∈ AList.keys c.sched.node2pending) ∧
@@ -173,8 +182,8 @@ instance instWkInvDec (c : Ctl.State (Load.State τ) τ) (k : Nat) (w : Wk τ) :
      (w.alive = true → (c.env.flags.get k).down = false → SyncD c.sched k w))
     (by
       constructor
-      · rintro ⟨h1, h2, h3, h4, h5, h6, h7, h8, h9, h10, h11, h12, h13, h14, h15, h16, h17, h18, h19, h20, h21⟩
-        refine ⟨h1, h2, ?_, h4, h5, ?_, fun _ => trivial, h7, h8, h9, h10, h11, h12, h13, ?_, h15, h16, h17, h18, h19, h20, h21⟩
+      · rintro ⟨h1, h2, h3, h4, h5, h6, h7, h8, h9, h9', h10, h11, h12, h13, h14, h14', h15, h16, h17, h18, h19, h20, h21⟩
+        refine ⟨h1, h2, ?_, h4, h5, ?_, fun _ => trivial, h7, h8, h9, h9', h10, h11, h12, h13, ?_, h14', h15, h16, h17, h18, h19, h20, h21⟩
         · intro hp
           have := h3 hp
           unfold nextIsTest at this
@@ -186,8 +195,8 @@ instance instWkInvDec (c : Ctl.State (Load.State τ) τ) (k : Nat) (w : Wk τ) :
           exact ⟨List.isEmpty_iff.1 this.1, List.isEmpty_iff.1 this.2⟩
         · intro hk; exact List.isEmpty_iff.1 (h14 hk)
       · intro h
-        refine ⟨h.loopCb, h.running, ?_, h.init0, h.early, ?_, h.inboxK, h.ownP, h.ownO, h.notBroken, h.notice1, h.notice2,
-          h.noticeDown, ?_, h.shut, h.ready, h.readyTail, h.readyColl, h.qn, h.keysActive, h.sync⟩
+        refine ⟨h.loopCb, h.running, ?_, h.init0, h.early, ?_, h.inboxK, h.ownP, h.ownO, h.evPlain, h.notBroken, h.notice1, h.notice2,
+          h.noticeDown, ?_, h.inactiveDown, h.shut, h.ready, h.readyTail, h.readyColl, h.qn, h.keysActive, h.sync⟩
         · intro hp
           obtain ⟨j, hj⟩ := h.have1 hp
           unfold nextIsTest; rw [hj]
